@@ -156,6 +156,42 @@ def rl1(ctx, R):
     R.note("open() call sites in package: %d" % n_open)
 
 
+@rule("ST2", "a stream supplied by the caller is used as it is: no wrapper object is put between the library and the stream", floor=2)
+def st2(ctx, R):
+    """For every constructor scenario in which a handle field ends up holding something that came from the caller, that something
+    must be the caller's object itself (a parameter, possibly through locals), not a new object constructed around it: a buffering
+    wrapper reads ahead of what is asked for and closes the caller's stream when it is finalised."""
+    from .resinterp import sget
+    prog = ctx.prog
+    n = 0
+    for cq, scenarios, then in (("reader.TdmsReader", READER_SCENARIOS, ()), ("writer.TdmsWriter", WRITER_SCENARIOS, ("open",))):
+        owners = OWNERS[cq]
+        init = prog.func(cq + ".__init__")
+        for name, answers in scenarios:
+            outs = construct(prog, cq, answers, then)
+            wrapped = None
+            seen_caller = False
+            for st in outs:
+                for h in owners:
+                    origin = sget(st, "origin", "self." + h) or ""
+                    if origin.startswith("caller:"):
+                        seen_caller = True
+                        src = origin[len("caller:"):]
+                        if "(" in src:
+                            wrapped = (h, src)
+            if not seen_caller:
+                continue
+            n += 1
+            key = "%s::%s" % (cq, name)
+            if wrapped:
+                R.violation(key, init.where(), "constructed from a %s, self.%s holds `%s`, a new object around the caller's stream, not the stream itself: "
+                            "its buffering reads more than is asked for and its finaliser closes the caller's stream" % (name, wrapped[0], wrapped[1]))
+            else:
+                R.ok(key, init.where(), "the handle field holds the caller's object itself")
+    if n < 2:
+        raise AnchorMissing("constructor scenarios with a caller-supplied stream (found %d)" % n)
+
+
 def _assign_parent(func_node, call):
     for n in walk_body(func_node):
         if isinstance(n, ast.Assign) and n.value is call:
